@@ -110,17 +110,17 @@ def plan(tier, ctx):
     for mode in (0, 1, 2, 3, 4):
         t = 8 if mode in (1, 2) else (4 if mode in (3, 4) else 0)
         for eob in (0, 1):
-            for bc in ([0, 1, 6, 7, 8] if quick else list(range(0, 17)) + [31, 32, 47, 53]):
+            for bc in ([0, 7, 8] if quick else list(range(0, 17)) + [31, 32, 47, 53]):
                 if not eob and bc > 54:
                     continue
                 kb = (bc + (0 if eob else 10) + 7) // 8
                 if quick:
-                    aos = {0, 7, 8, 9, kb + t + 7, kb + t + 8, 24}
+                    aos = {0, 8, 9, kb + t + 7, kb + t + 8}
                 else:
                     aos = set(range(0, kb + t + 10)) | {32}
                 for ao in sorted(aos):
                     qid = "wtrailer/m%d/eob%d_bc%d_ao%d" % (mode, eob, bc, ao)
-                    core = (mode in (1, 3) and bc == 7 and ao == 24)
+                    core = (mode in (1, 3) and bc == 7 and ao == kb + t + 8)
                     wit = quick or core or (len(qs) % 4 == 0)
                     qs.append(Query(qid, R, dict(harness=HWT, units=U_W, vunits=VU,
                                                  hdefines=["MODE=%d" % mode, "EOB=%d" % eob, "BC=%d" % bc, "AO=%d" % ao],
@@ -139,8 +139,8 @@ def plan(tier, ctx):
                         "{0,3,7} x tmp_in_size 0..T-1 x avail_in 0..10 [quick: boundary subset]; crc_flag GZIP, ZLIB in full, "
                         "*_NO_HDR_VER on boundary sizes, DEFLATE/GZIP_NO_HDR/ZLIB_NO_HDR: no verification, 6 sizes each",
             "two_call": "first call short by 1..T bytes, second call delivers 0..missing+1 bytes",
-            "write_trailer": "m_bit_count 0..16,31,32,47,53 [quick 0,1,6,7,8], has_eob_hdr 0/1, gzip_flag 0..4, avail_out 0..needed+9 "
-                             "[quick 7 values]; m_bits, crc, total_in, previous output symbolic",
+            "write_trailer": "m_bit_count 0..16,31,32,47,53 [quick 0,7,8], has_eob_hdr 0/1, gzip_flag 0..4, avail_out 0..needed+9 "
+                             "[quick 5 values]; m_bits, crc, total_in, previous output symbolic",
         },
         stubs=["strnlen/memcpy models of harness/C19/link_stubs.c (memcpy: typed copy for n in {2,4,8}, byte loop otherwise)",
                "assert-false link stubs for the compression kernels and decode_huffman_code_block_stateless (unreachable here)",
